@@ -176,13 +176,18 @@ class SrcInfo:
         self.adts.setdefault(name, []).append(adt)
         return adt
 
-    def find_adt(self, segs):
-        """segs: path segments without generics, e.g. ['types','Utxo'] ; returns Adt or None"""
+    def find_adt(self, segs, prefer_crate=None):
+        """segs: path segments without generics, e.g. ['types','Utxo'] ; returns Adt or None.
+        prefer_crate: crate ident of the MIR body naming the type (trimmed paths are relative to it)"""
         cands = self.adts.get(segs[-1], [])
         if not cands:
             return None
         if len(cands) == 1:
             return cands[0]
+        if prefer_crate and len(segs) == 1:
+            own = [c for c in cands if c.mod and c.mod[0] == prefer_crate]
+            if len(own) == 1:
+                return own[0]
         best, score = None, -1
         for c in cands:
             s = sum(1 for x in segs[:-1] if x in c.mod)
